@@ -320,7 +320,17 @@ def value_matches(ref, act, path, out, points=None):
             return
         for i, row in enumerate(ref.rows):
             for j, r in enumerate(row):
-                value_matches(r, act[i][j], path + "[r,c]", out)
+                el = act[i][j]
+                if isinstance(r, V) and act.dtype == object:
+                    # numbers stored next to parameters keep the declared element type
+                    ok = {"int": isinstance(el, numbers.Integral) and not isinstance(el, (bool, np.bool_)),
+                          "float": isinstance(el, numbers.Real) and not isinstance(el, numbers.Integral),
+                          "complex": isinstance(el, numbers.Complex) and not isinstance(el, numbers.Real)}[ref.vtype]
+                    if not ok:
+                        out.append(Mismatch(path + "[r,c]:element-type", "element (%d,%d) of a %s array is %r (%s)" % (
+                            i, j, ref.vtype, el, type(el).__name__)))
+                        continue
+                value_matches(r, el, path + "[r,c]", out)
         return
     if isinstance(ref, R.RSym):
         kinds = {k for k, _ in ref.syms}
